@@ -191,6 +191,32 @@ func c18Once(c *mon.Ctx) {
 				c.V("hasvalidtld-malformed", fmt.Sprintf("HasValidTLD(%q) = %v, reference %v", d, got, want), "", nil, nil)
 			}
 		}
+		// total lengths at and around the limits that DNS, byte-sized and 16-bit counters suggest: the right-most label
+		// decides whatever stands in front of it
+		for _, total := range []int{63, 64, 65, 127, 128, 253, 254, 255, 256, 257, 512, 1000, 4096, 65535, 65536} {
+			if total <= len(name)+2 {
+				continue
+			}
+			pad := strings.Repeat("abcdefg.", total/8+1)
+			d := pad[len(pad)-(total-len(name)-1):]
+			d = strings.TrimLeft(d, ".")
+			d = strings.Repeat("a", total-len(name)-1-len(d)) + d + "." + name
+			one := strings.Repeat("a", total-len(name)-1) + "." + name // ONE label of that length in front
+			for k, dd := range []string{d, one} {
+				if k == 1 && total > 300 && ni%16 != 0 {
+					continue
+				}
+				for _, t := range []time.Time{r.deleg.Add(48 * time.Hour), r.deleg.Add(-48 * time.Hour)} {
+					got, want := util.HasValidTLD(dd, t), refValid(dd, t)
+					c.R.Count("evaluations", 1)
+					c.R.Count("api_probes", 1)
+					c.R.Count("long_name_probes", 1)
+					if got != want {
+						c.V("hasvalidtld-length", fmt.Sprintf("HasValidTLD(<name of %d octets ending in .%s>, %s) = %v, the table says %v", len(dd), name, t.UTC().Format(time.RFC3339), got, want), "", nil, nil)
+					}
+				}
+			}
+		}
 		if ni%50 == 0 {
 			c.Tick()
 		}
